@@ -91,7 +91,30 @@ def _midpoint(a, b):
     return (a + b) // 2
 
 
+PREP_COLS = [('v', wire.T_INT)]
+
+
+def prepared_query(tag):
+    """Text of the statement prepared for the request tagged `tag` (one statement per tag: an EXECUTE names its tag by its id)."""
+    return 'SELECT v FROM t WHERE k = %d' % tag
+
+
+def query_id_of(tag):
+    return b'qid-%d' % tag
+
+
 def tag_of_request(req):
+    if req.get('op') == 'EXECUTE':
+        try:
+            return int(req['query_id'][4:])
+        except (ValueError, KeyError):
+            return None
+    if req.get('op') == 'PREPARE':
+        # the PREPARE the driver sends on behalf of a request whose EXECUTE was answered UNPREPARED
+        try:
+            return 'PREPARE %d' % int(req['query'].split()[-1])
+        except (ValueError, IndexError, KeyError):
+            return 'PREPARE ?'
     q = req.get('query', '')
     if is_use(req):
         return q.strip()        # 'USE ks1' (the application's statement) / 'USE "ks1"' (the driver switching a connection)
@@ -107,6 +130,10 @@ def is_use(req):
 
 def use_keyspace(req):
     return req['query'].strip()[4:].strip().strip('"')
+
+
+def is_prepare(req):
+    return req.get('op') == 'PREPARE'
 
 
 def is_internal_use(req):
@@ -146,9 +173,38 @@ class W9(ReqWorld):
         _policies.randint = _midpoint
         ReqWorld.__init__(self, p)
         self.w.clock = SpinClock(self.w.clock.now)
-        self.server.hold = self._hold9
-        self.initial_pool_conns = len(self.pool_conns())
-        self.initial_highest = dict((c.vid, c.highest_request_id) for c in self.w.conns)
+        self.n_unprepared = 0       # EXECUTEs answered UNPREPARED so far
+        self.n_unwritable = 0       # 'socket not writable' faults so far
+        self.handling = []          # (executor task, connection): an answer taken off that connection whose handler the
+        #                             driver queued on the executor (the continuation of a re-prepare) and that has not run yet
+        self.prepared = {}
+        try:
+            if p.get('prepared'):
+                self._prepare_statements()
+            self.server.hold = self._hold9
+            self.initial_pool_conns = len(self.pool_conns())
+            self.initial_highest = dict((c.vid, c.highest_request_id) for c in self.w.conns)
+            for ev in p.get('prologue', ()):      # layer E: the history every explored history starts with
+                self.apply(tuple(ev))
+        except BaseException:
+            self.close()
+            raise
+
+    def _prepare_statements(self):
+        """One prepared statement per request tag, prepared through the real Session.prepare against the auto server
+        (which answers every PREPARE with the id of that statement) before the explorer takes over."""
+        def on_request(server, conn, stream, req):
+            if req['op'] == 'PREPARE':
+                tag = int(req['query'].split()[-1])
+                return wire.OP_RESULT, wire.result_prepared(query_id_of(tag), [], PREP_COLS, req['version'])
+            return None
+        hold, on_req = self.server.hold, self.server.on_request
+        self.server.hold, self.server.on_request, self.w.manual = (lambda conn, req: False), on_request, False
+        for k in range(self.p.get('n_req', 4)):
+            tag = TAG0 + k
+            self.prepared[tag] = self.session.prepare(prepared_query(tag))
+            self.w.settle()
+        self.server.hold, self.server.on_request, self.w.manual = hold, on_req, True
 
     # ---------------------------------------------------------------- wire observation
     def _published(self, conn):
@@ -181,6 +237,10 @@ class W9(ReqWorld):
                     'request %r was sent on connection #%d with stream id %d; ids are limited to 0..%d' % (tag, vid, stream, self.max_id)))
             if any(a[0] == vid and a[1] == stream for a in self.arrivals):
                 self.flags.add('reuse')
+            if is_prepare(req):
+                self.flags.add('reprepare-sent')
+            elif req.get('op') == 'EXECUTE' and self.n_unprepared and any(a[2] == tag for a in self.arrivals):
+                self.flags.add('re-executed')
             self.arrivals.append((vid, stream, tag))
         return held
 
@@ -188,7 +248,12 @@ class W9(ReqWorld):
     def send(self, tag=None):
         if tag is None:
             tag = TAG0 + len(self.futures)
-        f = self.session.execute_async(SimpleStatement('SELECT %d' % tag, is_idempotent=True))
+        if tag in self.prepared:
+            stmt = self.prepared[tag].bind(())      # an EXECUTE of the statement prepared for this tag
+            stmt.is_idempotent = True
+        else:
+            stmt = SimpleStatement('SELECT %d' % tag, is_idempotent=True)
+        f = self.session.execute_async(stmt)
         f._vtag = tag
         # (client threads of layer S interleave here: the observer is tied to its future, never paired by position)
         f._vobs = Observer(f, self.w)
@@ -230,11 +295,36 @@ class W9(ReqWorld):
                 self.flags.add('use-switched')        # a connection in service was switched by a multiplexed USE
             elif live and not late:
                 # the session now tells every pool; a connection already on that keyspace has nothing to send
-                sent = [a for a in self.arrivals[before:] if isinstance(a[2], str)]
+                sent = [a for a in self.arrivals[before:] if isinstance(a[2], str) and a[2].upper().startswith('USE ')]
                 self.flags.add('use-sent' if sent else 'use-noop')
             return
         tag = tag_of_request(p.req)
+        if is_prepare(p.req):
+            # the id of the statement whose text arrived on that stream; the driver hands the answer to an executor task
+            live = not (p.conn.is_closed or p.conn.is_defunct)
+            before = [t[0] for t in self.w.tasks]
+            self.server.respond(p, wire.OP_RESULT, wire.result_prepared(query_id_of(int(tag.split()[-1])), [], PREP_COLS,
+                                                                         p.req['version']), deliver=True)
+            if live and not late:
+                self.flags.add('reprepared')
+                self.handling += [(t[0], p.conn) for t in self.w.tasks if t[0] not in before]
+            return
         self.server.respond(p, wire.OP_RESULT, wire.result_rows(ROWS_COLS, [[tag]], p.req['version']), deliver=True)
+
+    def answer_unprepared(self, p):
+        """The node does not know the statement of this EXECUTE (it restarted, or evicted it from its cache)."""
+        if p.stream in p.conn.orphaned_request_ids and not (p.conn.is_closed or p.conn.is_defunct):
+            self.flags.add('late')
+        self.n_unprepared += 1
+        self.flags.add('unprepared')
+        self.server.respond(p, wire.OP_ERROR, wire.error(wire.ERR_UNPREPARED, 'unprepared', query_id=p.req['query_id']), deliver=True)
+
+    def being_handled(self, conn):
+        """Answers taken off `conn` whose handler is still queued on the executor: the request is answered on the wire,
+        the driver has not dealt with the answer yet (it keeps the slot until then)."""
+        queued = [t[0] for t in self.w.tasks]
+        self.handling = [(t, c) for t, c in self.handling if t in queued]
+        return len([1 for t, c in self.handling if c is conn])
 
     def answer_retry(self, p):
         """The server answers 'overloaded' and the retry policy says: again on the same host (the request is sent
@@ -259,6 +349,10 @@ class W9(ReqWorld):
         for g, t in self.timeout_timers():
             if g is f:
                 had = f._connection is not None and f._req_id in f._connection._requests
+                if any(getattr(getattr(x[1], 'func', x[1]), '__self__', None) is f or f in x[2] for x in self.w.tasks):
+                    self.flags.add('timeout-task-queued')       # a retry / re-prepare step of this request waits on the executor
+                if had and any(q.conn is f._connection and q.stream == f._req_id and is_prepare(q.req) for q in self.server.pending):
+                    self.flags.add('timeout-prepare-outstanding')
                 self.w.fire_timer(t)
                 if had and f._req_id in f._connection.orphaned_request_ids:
                     self.flags.add('orphan')
@@ -292,6 +386,8 @@ class W9(ReqWorld):
         if self.w.clock.spins:
             self.flags.add('spin')
         for f in self.futures:
+            if any(type(e).__name__ == 'ConnectionBusy' for e in f._errors.values()):
+                self.flags.add('send-refused')
             if type(f._final_exception).__name__ == 'NoHostAvailable' and \
                     any(type(e).__name__ == 'NoConnectionsAvailable' for e in f._final_exception.errors.values()):
                 self.flags.add('exhausted')
@@ -314,8 +410,10 @@ class W9(ReqWorld):
                     break
         for k, q in enumerate(self.pending()):
             evs.append((('respond', k), 0))
-            if p.get('retry_kind') and not is_internal_use(q.req):
+            if p.get('retry_kind') and not is_internal_use(q.req) and not is_prepare(q.req):
                 evs.append((('respond', k, 'retry'), 0))
+            if q.req.get('op') == 'EXECUTE' and self.n_unprepared < p.get('max_unprepared', 0):
+                evs.append((('respond', k, 'unprepared'), 0))
         for f, t in self.timeout_timers():
             evs.append((('timeout', self.futures.index(f)), 0))
         if self.w.tasks:
@@ -326,6 +424,13 @@ class W9(ReqWorld):
             for c in self.pool_conns():
                 if not (c.is_closed or c.is_defunct):
                     evs.append((('defunct', c.vid), 0))
+        for c in self.pool_conns():
+            if c.is_closed or c.is_defunct:
+                continue
+            if not c._socket_writable:
+                evs.append((('writable', c.vid), 0))
+            elif self.n_unwritable < p.get('max_unwritable', 0):
+                evs.append((('unwritable', c.vid), 0))
         return evs
 
     def apply(self, ev):
@@ -362,7 +467,9 @@ class W9(ReqWorld):
         elif k == 'use':
             self.send_use(ev[1])
         elif k == 'respond':
-            if len(ev) > 2:
+            if len(ev) > 2 and ev[2] == 'unprepared':
+                self.answer_unprepared(self.pending()[ev[1]])
+            elif len(ev) > 2:
                 self.answer_retry(self.pending()[ev[1]])
             else:
                 self.answer(self.pending()[ev[1]])
@@ -374,6 +481,14 @@ class W9(ReqWorld):
             self.w.fire_sched(sorted(self.w.sched_tasks, key=lambda t: (t[0], t[1]))[0])
         elif k == 'defunct':
             self.fail_connection(self.w.conns[ev[1]])
+        elif k == 'unwritable':
+            # the kernel's send buffer of this socket is full: the reactor got EAGAIN and marked the connection
+            # (Connection._socket_writable; send_msg refuses with ConnectionBusy until the socket drains)
+            self.n_unwritable += 1
+            self.flags.add('unwritable')
+            self.w.conns[ev[1]]._socket_writable = False
+        elif k == 'writable':
+            self.w.conns[ev[1]]._socket_writable = True
         else:
             raise ValueError(ev)
 
@@ -381,7 +496,7 @@ class W9(ReqWorld):
         now = self.w.clock._now
         conns = tuple((c.vid, c.is_control_connection, c.is_closed, c.is_defunct, c.in_flight, tuple(c.request_ids),
                        c.highest_request_id, tuple(sorted(c._requests, key=repr)), tuple(sorted(c.orphaned_request_ids, key=repr)),
-                       c.orphaned_threshold_reached, c.signaled_error, c.keyspace) for c in self.w.conns)
+                       c.orphaned_threshold_reached, c.signaled_error, c.keyspace, c._socket_writable) for c in self.w.conns)
         futs = tuple((f._vtag, f._event.is_set(), len(o.results), len(o.errors), type(f._final_exception).__name__,
                       f._req_id, f._connection.vid if f._connection is not None else None)
                      for f, o in ((f, f._vobs) for f in self.futures))
@@ -395,7 +510,9 @@ class W9(ReqWorld):
             pools.append((type(pool).__name__, pool.is_shutdown, host.is_up, c.vid if c is not None else None,
                           getattr(pool, '_is_replacing', None), tuple(sorted(t.vid for t in getattr(pool, '_trash', ()))),
                           tuple(sorted(x.vid for x in getattr(pool, '_connections', ()))), getattr(pool, '_keyspace', None)))
-        return (conns, futs, pend, timers, tasks, scheds, tuple(pools), self.faults, self.session.keyspace, self.stuck)
+        handling = tuple(sorted(c.vid for c in self.w.conns for _ in range(self.being_handled(c))))
+        return (conns, futs, pend, timers, tasks, scheds, tuple(pools), self.faults, self.session.keyspace, self.stuck,
+                self.n_unprepared, self.n_unwritable, handling)
 
 
 # ---------------------------------------------------------------------------------------- oracle
@@ -454,10 +571,13 @@ def judge(st, part, data, site):
             part.violation('C09/free-id-duplicated/%s' % site, desc, data)
         if set(free) & (set(waited) | set(orph)):
             part.violation('C09/in-use-id-is-free/%s' % site, desc, data)
-        if outstanding:
-            if c.in_flight != len(outstanding):
+        handled = st.being_handled(c) if hasattr(st, 'being_handled') else 0
+        if outstanding or handled:
+            if c.in_flight != len(outstanding) + handled:
                 part.violation('C09/in-flight-count/%s' % site,
-                               'in_flight differs from the number of requests sent and not yet answered; ' + desc, data)
+                               'in_flight differs from the number of requests sent and not yet answered%s; %s'
+                               % (' plus the %d answered one(s) whose handler still waits on the executor' % handled if handled else '',
+                                  desc), data)
         else:
             # every request sent on this connection has been answered (late answers included)
             if c.in_flight != 0:
